@@ -67,6 +67,7 @@ type Exec struct {
 	Notes         []string
 	coro          *coroSched
 	pendingBinds  []Val
+	Driver        string
 	Config        map[string]int64
 	keepRets      bool
 	lastRets      []retRec
